@@ -15,6 +15,7 @@ import ZapVerif.Model.TransSweetenX
 import ZapVerif.Model.TransCaptureX
 import ZapVerif.Model.TransJsonEncX
 import ZapVerif.Model.TransConsoleX
+import ZapVerif.Model.TransSlogX
 import ZapVerif.Model.Entry
 import ZapVerif.Gen.TransProbe
 /-! `zvdrv CTR`: the interpreter side of the translator's differential test.  An op names a generated table and a
@@ -253,6 +254,8 @@ def tables : List (String × (Env → Ctx)) := [
   ("TransCE", fun _ => ZapVerif.TransCE.X),
   ("TransCEAdd", fun _ => ZapVerif.TransCEAdd.X),
   ("TransCapture", fun e => ZapVerif.TransCapture.X ⟨match e.get "#st" with | some (.list l) => l | _ => []⟩),
+  ("TransSlog", fun _ => ZapVerif.TransSlog.X
+      { coreWith := fun c fs => .list [c, fs], check := fun _ _ => .list [], frame := fun _ => (.list [], false), take := fun _ => [] }),
   ("TransConsole", fun _ => ZapVerif.TransConsole.X consolePar),
   ("TransJsonEnc", fun _ => ZapVerif.TransJsonEnc.X jsonEncPar),
   ("TransSweeten", fun _ => ZapVerif.TransSweeten.X sweetenPar),
